@@ -437,6 +437,62 @@ impl<S: Scheduler> Scheduler for Recording<S> {
     }
 }
 
+/// Pure clause of the property, sampled outside any schedule: the generic field square root and
+/// Legendre symbol against Euler's criterion on structured inputs (powers of two times small odd
+/// numbers, boundary values), each with a wall-clock guard so that a non-terminating routine is
+/// reported instead of stalling the engine.
+fn pure_preflight() -> Result<(), String> {
+    use ark_ff::Field;
+    let f = fq();
+    let mut xs: Vec<BigUint> = vec![BigUint::from(0u32), BigUint::from(1u32), &f.p - 1u32, rd::zeta().clone()];
+    for k in 0..253u32 {
+        for m in [1u32, 3, 7] {
+            let x = (BigUint::from(m) << k) % &f.p;
+            xs.push(x);
+        }
+    }
+    let (tx, rx) = std::sync::mpsc::channel();
+    let current = Arc::new(AtomicU64::new(0));
+    let cur2 = current.clone();
+    let xs2 = xs.clone();
+    std::thread::spawn(move || {
+        let mut out = Vec::new();
+        for (i, x) in xs2.iter().enumerate() {
+            cur2.store(i as u64, Ordering::SeqCst);
+            let v = big_to_fq(x);
+            let leg = match v.legendre() {
+                ark_ff::LegendreSymbol::Zero => 0i8,
+                ark_ff::LegendreSymbol::QuadraticResidue => 1,
+                ark_ff::LegendreSymbol::QuadraticNonResidue => -1,
+            };
+            out.push((leg, v.sqrt().map(|y| fq_to_big(&y))));
+        }
+        let _ = tx.send(out);
+    });
+    let res = match rx.recv_timeout(std::time::Duration::from_secs(60)) {
+        Ok(r) => r,
+        Err(_) => {
+            let i = current.load(Ordering::SeqCst) as usize;
+            return Err(format!(
+                "INVARIANT no_termination: Field::legendre / Field::sqrt did not return within 60 s on x = {:x}",
+                xs[i.min(xs.len() - 1)]
+            ));
+        }
+    };
+    for (x, (leg, root)) in xs.iter().zip(res.iter()) {
+        let want: i8 = if *x == BigUint::from(0u32) { 0 } else if f.is_square(x) { 1 } else { -1 };
+        if *leg != want {
+            return Err(format!("INVARIANT legendre_vs_euler: legendre({:x}) = {}, Euler's criterion says {}", x, leg, want));
+        }
+        match root {
+            Some(y) if f.sqr(y) != *x => return Err(format!("INVARIANT field_sqrt: sqrt({:x})^2 != x", x)),
+            None if want >= 0 => return Err(format!("INVARIANT field_sqrt: sqrt({:x}) is None but it is a square", x)),
+            _ => {}
+        }
+    }
+    Ok(())
+}
+
 fn usage() -> ! {
     eprintln!(
         "usage: lazysim --scheduler random|pct --seed N --iters N --threads T --ops K --out FILE --schedule-dir DIR\n\
@@ -455,6 +511,8 @@ fn main() {
     let mut out: Option<String> = None;
     let mut sdir: Option<String> = None;
     let mut replay: Option<String> = None;
+    let mut stack: usize = 0x40000;
+    let mut preflight = false;
     let mut i = 0;
     while i < args.len() {
         let v = |i: &mut usize| -> String {
@@ -470,6 +528,8 @@ fn main() {
             "--out" => out = Some(v(&mut i)),
             "--schedule-dir" => sdir = Some(v(&mut i)),
             "--replay-schedule" => replay = Some(v(&mut i)),
+            "--stack" => stack = v(&mut i).parse().unwrap_or_else(|_| usage()),
+            "--preflight" => preflight = true,
             _ => usage(),
         }
         i += 1;
@@ -480,6 +540,18 @@ fn main() {
         std::process::exit(2);
     }
     let _ = inputs();
+    if preflight {
+        if let Err(msg) = pure_preflight() {
+            println!("{}", msg);
+            let doc = json!({"seed": seed, "executions": 0, "steps": 0, "ops": 0, "contended_executions": 0, "contended_entries": 0,
+                "cross_cell_overlap": 0, "cells_initialised": 0, "distinct_cells": 0, "interleaving_digests": [], "digit_cover": [],
+                "failure": msg, "wall_s": 0.0, "preflight_failed": true});
+            if let Some(p) = &out {
+                let _ = std::fs::write(p, serde_json::to_string(&doc).unwrap());
+            }
+            std::process::exit(1);
+        }
+    }
     if let Some(path) = replay {
         let r = std::panic::catch_unwind(|| {
             shuttle::replay_from_file(move || scenario(threads, ops), &path);
@@ -505,7 +577,7 @@ fn main() {
     }
     let mut cfg = shuttle::Config::new();
     cfg.silence_warnings = true;
-    cfg.stack_size = 0x40000;
+    cfg.stack_size = stack;
     cfg.failure_persistence = match &sdir {
         Some(d) => shuttle::FailurePersistence::File(Some(d.into())),
         None => shuttle::FailurePersistence::Print,
